@@ -15,13 +15,13 @@ FAITHFUL = ["ContainerOK", "TopIsHeight", "StorageShape", "RestartResumes", "NoR
 
 def _tier(tier):
     if tier == "quick":
-        return dict(mc=[("Controller_quick_light.cfg", 75), ("Controller_quick_full.cfg", 75)], mc_workers=4,
+        return dict(mc=[("Controller_quick_light.cfg", 60), ("Controller_quick_full.cfg", 60)], mc_workers=4,
                     sims=[("Controller_sim_light.cfg", 170, 14), ("Controller_sim_full.cfg", 170, 14)],
                     record_runs=100)
     return dict(mc=[("Controller_thorough_light.cfg", 1500), ("Controller_thorough_full.cfg", 1500),
                     ("Controller_thorough_full3.cfg", 1500)], mc_workers=4,
-                sims=[("Controller_sim_light.cfg", 2500, 18), ("Controller_sim_full.cfg", 2500, 18)],
-                record_runs=2500)
+                sims=[("Controller_sim_light.cfg", 1500, 18), ("Controller_sim_full.cfg", 1500, 18)],
+                record_runs=1500)
 
 
 ATTACKS = [  # (cfg, named deviation, property whose counterexample is the attack trace)
@@ -59,7 +59,8 @@ def run(tier, seed):
     os.makedirs(wd, exist_ok=True)
 
     # TLC runs are independent: exhaustive configs, simulations and the small attack/finding/observe configs in parallel
-    ex = ThreadPoolExecutor(max_workers=6)
+    ex = ThreadPoolExecutor(max_workers=8)
+    f_rec = [ex.submit(_record_and_validate, binc, wd, full, seed, T["record_runs"]) for full in (False, True)]
     f_mc = [(cfg, ex.submit(vlib.tlc, "Controller", cfg, None, T["mc_workers"], sa + 600, sa)) for cfg, sa in T["mc"]]
     f_sim = [(cfg, ex.submit(vlib.tlc_simulate, "Controller", cfg, num, depth, seed, None, 1800, None,
                              ["act"] + STATE_VARS)) for cfg, num, depth in T["sims"]]
@@ -94,7 +95,6 @@ def run(tier, seed):
         cov.setdefault("sim_behaviours", {})[cfg] = len(sb)
     # ... attack traces of the weakened specs, finding and observation traces of the faithful spec
     small = dict(f.result() for f in f_small)
-    ex.shutdown()
     special = []
     for group, prefix in ((ATTACKS, "attack"), (FINDINGS, "finding"), (OBSERVE, "observe")):
         for cfg, desc in group:
@@ -110,6 +110,7 @@ def run(tier, seed):
             special.append(vlib.trace_behaviour(r.trace, "%s-%s" % (prefix, cfg.replace("Controller_%s_" % prefix, "").replace(".cfg", "")),
                                                 "%s:%s" % (prefix, desc), STATE_VARS))
             cov["%s_traces" % prefix] = cov.get("%s_traces" % prefix, 0) + 1
+    log("[C15] TLC stage done at %.0fs" % (time.time() - t0))
     inp = os.path.join(wd, "behaviours.ndjson")
     vlib.write_ndjson(inp, behs + special)
     outp = os.path.join(wd, "replay_result.json")
@@ -126,6 +127,7 @@ def run(tier, seed):
     log("[C15] replayed %d behaviours / %d steps on the real runner+controller+storage: %d monitor trips, %d divergences, "
         "%d attack steps refused" % (res["behaviours"], res["steps"], res["counters"].get("violations", 0),
                                      res["counters"].get("divergences", 0), cov["attack_steps_refused"]))
+    log("[C15] replay stage done at %.0fs" % (time.time() - t0))
     found = set(v["behaviour"] for v in res["violations"])
     for cfg, desc in FINDINGS:
         bid = "finding-" + cfg.replace("Controller_finding_", "").replace(".cfg", "")
@@ -136,21 +138,18 @@ def run(tier, seed):
     # 3. executions recorded from the real code (light and full node), validated by TLC against the spec
     rec_behaviours = 0
     rec_steps = 0
+    rec_distinct = 0
     sample_trace = []
-    for full, cfg in (("false", "ControllerTrace_light.cfg"), ("true", "ControllerTrace_full.cfg")):
-        tr = os.path.join(wd, "trace_%s.ndjson" % ("full" if full == "true" else "light"))
-        outr = os.path.join(wd, "record_result.json")
-        vlib.run_driver(binc, ["-mode", "record", "-trace", tr, "-out", outr, "-seed", str(seed + (7 if full == "true" else 0)),
-                               "-runs", str(T["record_runs"]), "-full=" + full], timeout=3000)
-        res2 = json.load(open(outr))
-        _collect(res2, verdict, None, "record:seed=%d:full=%s:runs=%d" % (seed + (7 if full == "true" else 0), full, T["record_runs"]))
-        accepted, consumed, nlines, rt = vlib.tlc_validate_trace("ControllerTrace", cfg, tr, name="ControllerTrace-" + full, timeout=2400)
-        cov.setdefault("recorded", []).append({"full": full == "true", "runs": res2["behaviours"], "events": nlines,
+    for fut in f_rec:
+        full, tr, res2, rpath, accepted, consumed, nlines, gen, selftest = fut.result()
+        _collect(res2, verdict, None, rpath)
+        cov.setdefault("recorded", []).append({"full": full, "runs": res2["behaviours"], "events": nlines,
                                                "accepted": accepted, "counters": res2["counters"]})
-        transitions += rt.generated
+        transitions += gen
         if accepted:
             rec_behaviours += res2["behaviours"]
             rec_steps += res2["steps"]
+            rec_distinct += _distinct_nontrivial_trace(tr)
             if not sample_trace:
                 sample_trace = open(tr).read().split("\n")[1:6]
         else:
@@ -159,8 +158,9 @@ def run(tier, seed):
             log("[C15] recorded trace (full=%s) REJECTED by the spec at line %d: %s" % (full, consumed + 1, bad[:400]))
             cov["divergences"] += 1
             cov.setdefault("trace_rejected_at", []).append({"full": full, "line": consumed + 1, "event": bad[:2000]})
-        if full == "false":
-            cov["binding_selftest"] = _selftest(tr, cfg, wd)
+        if selftest:
+            cov["binding_selftest"] = selftest
+    ex.shutdown()
 
     rc = verdict.report()
     if cov["divergences"] and rc == 0:
@@ -170,7 +170,7 @@ def run(tier, seed):
         "traces_validated_against_impl": res["behaviours"] + rec_behaviours,
         "samples": res["samples"][:1] + [sample_trace],
         "evaluations": res["steps"] + rec_steps,
-        "distinct_nontrivial": res["nontrivial"] + rec_behaviours,
+        "distinct_nontrivial": _distinct_nontrivial(behs + special) + rec_distinct,
         "rule": "behaviours = seeded TLC simulations of the faithful spec (light and full node) + attack traces of the "
                 "weakened specs + finding/observation traces + seeded executions generated on the real code and accepted "
                 "by ControllerTrace.tla; non-trivial = contains a decided certificate, a local decision or a restart",
@@ -186,6 +186,52 @@ def run(tier, seed):
         "the height-0 special case of ShouldProcessDuty (c.Height = 0 means 'nothing yet') is excluded explicitly from NoRerun",
     ], len(verdict.violations))
     return rc
+
+
+NONTRIVIAL = ("Decided", "LocalMsgs", "Restart")
+
+
+def _distinct_nontrivial(behaviours):
+    """number of distinct action sequences that contain a decided certificate, a local decision or a restart"""
+    seen = set()
+    for b in behaviours:
+        acts = [st["act"] for st in b["steps"]]
+        if any(a.get("name") in NONTRIVIAL for a in acts):
+            seen.add(json.dumps(acts, sort_keys=True))
+    return len(seen)
+
+
+def _distinct_nontrivial_trace(path):
+    seen, cur = set(), []
+    for ln in open(path):
+        if not ln.strip():
+            continue
+        e = json.loads(ln)
+        if e["event"] == "Reset":
+            if any(x[0] in NONTRIVIAL for x in cur):
+                seen.add(json.dumps(cur))
+            cur = []
+            continue
+        cur.append([e["event"]] + [e.get(k) for k in ("slot", "h", "r", "n", "ok")])
+    if any(x[0] in NONTRIVIAL for x in cur):
+        seen.add(json.dumps(cur))
+    return len(seen)
+
+
+def _record_and_validate(binc, wd, full, seed, runs):
+    """Seeded executions on the real code (one node type), then TLC trace validation (+ binding self-test, light only)."""
+    tag = "full" if full else "light"
+    sd = seed + (7 if full else 0)
+    tr = os.path.join(wd, "trace_%s.ndjson" % tag)
+    outr = os.path.join(wd, "record_result_%s.json" % tag)
+    vlib.run_driver(binc, ["-mode", "record", "-trace", tr, "-out", outr, "-seed", str(sd), "-runs", str(runs),
+                           "-full=%s" % ("true" if full else "false")], timeout=3000)
+    res2 = json.load(open(outr))
+    cfg = "ControllerTrace_%s.cfg" % tag
+    accepted, consumed, nlines, rt = vlib.tlc_validate_trace("ControllerTrace", cfg, tr, name="ControllerTrace-" + tag, timeout=2400)
+    selftest = None if full else _selftest(tr, cfg, wd)
+    rpath = "record:seed=%d:full=%s:runs=%d" % (sd, "true" if full else "false", runs)
+    return full, tr, res2, rpath, accepted, consumed, nlines, rt.generated, selftest
 
 
 def _collect(res, verdict, behaviours, replay_path=None):
